@@ -2,6 +2,7 @@
 # tools/seeds_parallel.sh "<seed list>" : like seeds.sh, but with per-seed log files (out/ms-<seed>-<id>.log) so that several lanes can run
 # side by side; prints one line per check: seed, exit code, summary.
 cd "$(dirname "$0")/.." || exit 2
+export VERIF_EVIDENCE_DIR="$PWD/out/evidence-scratch"; mkdir -p "$VERIF_EVIDENCE_DIR"   # these runs must not overwrite evidence/
 mkdir -p out
 for s in $1; do
   for id in C01 C02 C03 C04 C05 C06 C07 C08 C09 C10 C11 C12 C13 C14 C15 C16 C17 C18 C19 C20; do
